@@ -500,6 +500,7 @@ def harness_diff(ctx, tie, exe, args, timeout=1200, env=None, max_mismatch=5, pr
             mism.append({"request": "<driver>", "impl": "%d lines" % len(reqs), "model": "%d lines" % len(model)})
         else:
             for r, a, b in zip(reqs, impl, model):
+                b = b.strip()
                 if a != b:
                     mism.append({"request": r, "impl": a, "model": b})
                     if len(mism) >= max_mismatch:
